@@ -2,6 +2,7 @@
 
 What is regenerated from the source on every run (fail closed on any unrecognised shape):
   * glob.euler_characteristic            -> euler_char v e f
+  * TutteEmbedding.__init__              -> ctor_mode_custom present given_none (which test selects CUSTOM)
   * TutteEmbedding.run, the gate         -> gate_reject chi
   * TutteEmbedding.run, plumbing         -> which index list is the border (cycle / boundary_vertices), the row and
                                             column selectors of LI and LB, the sign of the right-hand side
@@ -295,6 +296,96 @@ def gen_run(out, parts, src, tree):
     out.append("(* scatter: in this order, for i,v in enumerate(<sel>): [for every corner c of v:] uvs[c or v] = (<comp>[i], <comp>[i]) *)")
     out.append("Definition scatter_corner : list (sel * comp * comp) := [%s; %s]." % (loop(s.body[1], True), loop(s.body[2], True)))
     out.append("Definition scatter_vertex : list (sel * comp * comp) := [%s; %s]." % (loop(s.orelse[1], False), loop(s.orelse[2], False)))
+
+
+# ====================================================================== TutteEmbedding.__init__ (mode selection)
+def gen_ctor(out, parts, src, tree):
+    """Which expression decides that the boundary mode is CUSTOM, as a function of how the caller wrote the optional
+    keyword custom_boundary: `present` (the keyword is in kwargs) and `given_none` (its value is None)."""
+    fn = T.find_def(tree, "TutteEmbedding.__init__", TUTTE)
+    parts.append(("TutteEmbedding.__init__", T.sha(src, fn)))
+    params = [a.arg for a in fn.args.args]
+    if params != ["self", "mesh", "boundary_mode", "use_cotan", "verbose"] or fn.args.kwarg is None or fn.args.vararg is not None \
+            or fn.args.kwonlyargs:
+        T.fail(TUTTE, fn, "__init__ is not (self, mesh, boundary_mode, use_cotan, verbose, **kwargs)")
+    defaults = [d.value if isinstance(d, ast.Constant) else "?" for d in fn.args.defaults]
+    if defaults != ["circle", False, False]:
+        T.fail(TUTTE, fn, "defaults of (boundary_mode, use_cotan, verbose) are %r, expected ('circle', False, False)" % (defaults,))
+    kwname = fn.args.kwarg.arg
+    attr = None
+    sel = None
+    cot_ok = False
+    for st in T.body_nodoc(fn):
+        if isinstance(st, ast.AnnAssign) or isinstance(st, ast.Assign):
+            tgt = st.target if isinstance(st, ast.AnnAssign) else (st.targets[0] if len(st.targets) == 1 else None)
+            val = st.value
+            d = T.dotted(tgt) if tgt is not None else None
+            if (isinstance(val, ast.Call) and T.dotted(val.func) == kwname + ".get" and len(val.args) >= 1
+                    and isinstance(val.args[0], ast.Constant) and val.args[0].value == "custom_boundary"):
+                if not (len(val.args) == 2 and isinstance(val.args[1], ast.Constant) and val.args[1].value is None
+                        and d and d.startswith("self.")):
+                    T.fail(TUTTE, st, "custom boundary is not read as `self.<a> = kwargs.get(\"custom_boundary\", None)`")
+                attr = d
+            if d == "self._use_cotan":
+                if T.dotted(val) != "use_cotan":
+                    T.fail(TUTTE, st, "self._use_cotan is not the use_cotan argument")
+                cot_ok = True
+        elif isinstance(st, ast.If):
+            if sel is not None:
+                T.fail(TUTTE, st, "more than one `if` in __init__")
+            sel = st
+    if attr is None or sel is None or not cot_ok:
+        T.fail(TUTTE, fn, "__init__ does not read custom_boundary / store use_cotan / select the mode")
+    if attr != "self._custom_bnd":
+        T.fail(TUTTE, fn, "the custom boundary is stored in %s but _initialize_boundary reads self._custom_bnd" % attr)
+
+    def branch(stmts):
+        if len(stmts) != 1:
+            T.fail(TUTTE, sel, "mode selection branch has %d statements" % len(stmts))
+        tgt, val = assign1(stmts[0], TUTTE)
+        if T.dotted(tgt) != "self._bnd_mode":
+            T.fail(TUTTE, stmts[0], "branch does not assign self._bnd_mode")
+        if is_mode(val, "CUSTOM"):
+            return "custom"
+        if (isinstance(val, ast.Call) and T.dotted(val.func) == "TutteEmbedding.BoundaryMode.from_string"
+                and [T.dotted(a) for a in val.args] == ["boundary_mode"] and not val.keywords):
+            return "string"
+        T.fail(TUTTE, stmts[0], "branch is neither CUSTOM nor BoundaryMode.from_string(boundary_mode)")
+    kinds = (branch(sel.body), branch(sel.orelse))
+    if sorted(kinds) != ["custom", "string"]:
+        T.fail(TUTTE, sel, "mode selection branches are %s" % (kinds,))
+
+    def test(e):
+        # value of self.<attr> is None  <=>  keyword absent or given as None
+        if isinstance(e, ast.Compare) and len(e.ops) == 1:
+            l, r = e.left, e.comparators[0]
+            if T.dotted(l) == attr and isinstance(r, ast.Constant) and r.value is None:
+                if isinstance(e.ops[0], ast.Is):
+                    return "(negb present || given_none)"
+                if isinstance(e.ops[0], ast.IsNot):
+                    return "negb (negb present || given_none)"
+            if isinstance(l, ast.Constant) and l.value == "custom_boundary" and T.dotted(r) == kwname:
+                if isinstance(e.ops[0], ast.In):
+                    return "present"
+                if isinstance(e.ops[0], ast.NotIn):
+                    return "negb present"
+        if isinstance(e, ast.UnaryOp) and isinstance(e.op, ast.Not):
+            return "negb (%s)" % test(e.operand)
+        if isinstance(e, ast.BoolOp):
+            op = " && " if isinstance(e.op, ast.And) else " || "
+            return "(" + op.join(test(x) for x in e.values) + ")"
+        T.fail(TUTTE, e, "mode selection test outside the subset")
+    t = test(sel.test)
+    out.append("(* constructor: is the boundary mode CUSTOM?  present = the keyword custom_boundary was written by the caller,")
+    out.append("   given_none = it was written with the value None (its documented default) *)")
+    out.append("Definition ctor_mode_custom (present given_none : bool) : bool := %s." % (t if kinds[0] == "custom" else "negb (%s)" % t))
+    # run(): validation of boundary_mode
+    calls = [n for n in ast.walk(fn) if isinstance(n, ast.Call) and T.dotted(n.func) == "check_argument"]
+    ok = (len(calls) == 1 and len(calls[0].args) == 4 and isinstance(calls[0].args[3], ast.List)
+          and sorted(x.value for x in calls[0].args[3].elts if isinstance(x, ast.Constant)) == ["circle", "square"]
+          and T.dotted(calls[0].args[1]) == "boundary_mode")
+    if not ok:
+        T.fail(TUTTE, fn, "boundary_mode is not validated by check_argument(.., boundary_mode, str, [\"square\", \"circle\"])")
 
 
 # ====================================================================== TutteEmbedding._initialize_boundary
@@ -623,6 +714,7 @@ def gen():
     out, parts = [], []
     gen_euler(out, parts)
     src, tree = T.load(TUTTE)
+    gen_ctor(out, parts, src, tree)
     gen_run(out, parts, src, tree)
     gen_boundary(out, parts, src, tree)
     gen_laplacian(out, parts)
